@@ -169,15 +169,24 @@ func (p *fakePool) NewFile(holeSource pool.HoleSource, size uint64) (filesystem.
 }
 
 // fakeNamedAttributes counts Release() calls (released together with the pool file).
+// With inner set it wraps the real in-memory named attributes (the ones the build
+// directory installs), so that files can own a named attribute directory.
 type fakeNamedAttributes struct {
 	mu       sync.Mutex
 	released int
+	inner    virtual.NamedAttributes
 }
 
 func (na *fakeNamedAttributes) VirtualGetAttributes(requested virtual.AttributesMask, attributes *virtual.Attributes) {
+	if na.inner != nil {
+		na.inner.VirtualGetAttributes(requested, attributes)
+	}
 }
 
 func (na *fakeNamedAttributes) VirtualOpenNamedAttributes(ctx context.Context, createDirectory bool, requested virtual.AttributesMask, attributes *virtual.Attributes) (virtual.Directory, virtual.Status) {
+	if na.inner != nil {
+		return na.inner.VirtualOpenNamedAttributes(ctx, createDirectory, requested, attributes)
+	}
 	return nil, virtual.StatusErrWrongType
 }
 
@@ -185,6 +194,9 @@ func (na *fakeNamedAttributes) Release() {
 	na.mu.Lock()
 	na.released++
 	na.mu.Unlock()
+	if na.inner != nil {
+		na.inner.Release()
+	}
 }
 
 func (na *fakeNamedAttributes) count() int {
@@ -194,14 +206,18 @@ func (na *fakeNamedAttributes) count() int {
 }
 
 type fakeNamedAttributesFactory struct {
-	mu   sync.Mutex
-	last *fakeNamedAttributes
+	mu    sync.Mutex
+	last  *fakeNamedAttributes
+	inner virtual.NamedAttributesFactory
 }
 
 func (f *fakeNamedAttributesFactory) NewNamedAttributes() virtual.NamedAttributes {
 	f.mu.Lock()
 	defer f.mu.Unlock()
 	f.last = &fakeNamedAttributes{}
+	if f.inner != nil {
+		f.last.inner = f.inner.NewNamedAttributes()
+	}
 	return f.last
 }
 
@@ -249,6 +265,12 @@ func (c *fakeCAS) Put(ctx context.Context, d digest.Digest, b buffer.Buffer) err
 		b.Discard()
 		return status.Error(codes.Internal, "bad context")
 	}
+	// like every real BlobAccess: a cancelled context makes Put fail (after
+	// discarding the buffer it owns)
+	if ctx.Err() != nil {
+		b.Discard()
+		return status.FromContextError(ctx.Err()).Err()
+	}
 	call := &putCall{t: t, d: d, done: make(chan bool, 1)}
 	c.mu.Lock()
 	if _, dup := c.pending[t]; dup {
@@ -256,7 +278,16 @@ func (c *fakeCAS) Put(ctx context.Context, d digest.Digest, b buffer.Buffer) err
 	}
 	c.pending[t] = call
 	c.mu.Unlock()
-	okDone := <-call.done
+	okDone := false
+	select {
+	case okDone = <-call.done:
+	case <-ctx.Done():
+		c.mu.Lock()
+		delete(c.pending, t)
+		c.mu.Unlock()
+		b.Discard()
+		return status.FromContextError(ctx.Err()).Err()
+	}
 	c.mu.Lock()
 	delete(c.pending, t)
 	c.mu.Unlock()
